@@ -57,7 +57,7 @@ class Prop(PoolProp):
     thorough_runs = 2500
     # real files, a real Manager, really forked writers and readers (what the simulation replaces); ~0.3 s each
     real_module = "harness.realstorage"
-    real_scenarios = ("seq_model", "writers_readers", "reversed_gapped", "presized_larger", "big_texts", "sessions", "ascii_locale")
+    real_scenarios = ("seq_model", "opened_before_fork", "writers_readers", "reversed_gapped", "presized_larger", "big_texts", "sessions", "ascii_locale")
     real_scenarios_quick = real_scenarios
     rule = ("2-4 simulated processes with their own fork-style copy of one storage: writers with disjoint, gapped, reversed "
             "or clashing identifiers (pre-sized index in a third of the runs; in half of the runs written data is invisible "
